@@ -1106,6 +1106,17 @@ example :
        ["text-effective-change-not-delivered-once-per-subscription"] ∧
      textNotifFailing p' (step p' (.leave 3 0 [4, 4])).1 (step p' (.leave 3 0 [4, 4])).2 = []) := by decide
 
+/-- the exit clause of the run-time text oracle (one un-raced `exit a` line of the `lts` engine): the scope monitor 4
+must be sent `Leave(3, 0, [5])` when member 5 exits (flagged if it is not; the model's own events pass); an exiting
+actor that monitors its own group is told nothing (it drops its monitor entries before it is taken out) -/
+example :
+    let p := run init [.monitorScope 3 4, .join 3 0 [5]]
+    textExitFailing p (step p (.exit 5)).1 5 [] = ["text-effective-change-not-delivered-once-per-subscription"] ∧
+    textExitFailing p (step p (.exit 5)).1 5 (step p (.exit 5)).2 = [] ∧
+    (step p (.exit 5)).2 = [⟨4, false, 3, 0, [5]⟩] ∧
+    (let p' := run init [.monitor 0 5, .join 1 0 [5]]
+     (step p' (.exit 5)).2 = [] ∧ textExitFailing p' (step p' (.exit 5)).1 5 [] = []) := by decide
+
 end C11
 
 #print axioms C11.ok_reachable
